@@ -62,3 +62,11 @@ Example C12_example :
   /\ s_deadline ex_config (Some 1500%Z) 0 = 750%Z.
 Proof. vm_compute. repeat split. Qed.
 Print Assumptions C12_example.
+
+(** ---- side conditions on the constants regenerated from the source (Gen/Constants.v) ---- *)
+From PSA Require Import Proofs.Constants_table.
+From PSA Require Gen.Constants.
+Theorem C12_defaults_are_source :
+  Gen.Constants.gen_default_max_pods = 3000%N /\ Gen.Constants.gen_default_timeout_ns = 1000000000%Z.
+Proof. exact dry_run_defaults_are_source. Qed.
+Print Assumptions C12_defaults_are_source.
